@@ -131,6 +131,8 @@ func ErrFragment(compounds []string) *Fragment {
 	for _, c := range compounds {
 		f.Compounds = append(f.Compounds, Lx(c))
 	}
+	// erroring calls that can also stand after a dot (evaluated against the left-hand value)
+	f.SubCompounds = [][]model.Tok{Lx("abs(@)"), Lx("nosuch(@)")}
 	return f
 }
 
@@ -194,9 +196,10 @@ func ChainFragment() *Fragment {
 		Idents:      Tks("a"),
 		Leaves:      Tks("@"),
 		Nums:        Tks("0"),
-		Slices:      [][]model.Tok{Tks("1", ":")},
+		Slices:      [][]model.Tok{Tks("1", ":"), Tks(":", "1")},
 		Star:        true, WildIdx: true, Flatten: true, Filter: true, Dot: true, Pipe: true, Or: true, Paren: true,
 		FilterConds: [][]model.Tok{Tks("a"), Tks("@")},
+		SubCompounds: [][]model.Tok{Lx("type(@)")},
 		MaxList:     1,
 		Weight:      StructuralWeight,
 	}
